@@ -290,6 +290,16 @@ func VerifC07PagedAcrossDelete(h *verifh.H) {
 	p1, err := st.GetManyRelatedEntitiesAtTime(from, 1, true)
 	h.Assert(err == nil, "first page")
 	cont := p1.Cont
+	// a client also pages the dataset's listing and feed and keeps the tokens of its first pages
+	extra := &mVersion{ID: "ns0:z", Props: map[string]string{"ns0:v": "a"}, Refs: map[string][]string{}}
+	h.Assert(hs.dss["a"].StoreEntities([]*Entity{mkEntity(extra)}) == nil, "write a")
+	g.write("a", []*mVersion{extra})
+	lp, err := hs.dss["a"].GetEntities("", 1)
+	h.Assert(err == nil && len(lp.Entities) == 1, "first listing page")
+	listTok := lp.ContinuationToken
+	cp, err := hs.dss["a"].GetChanges(0, 1, false)
+	h.Assert(err == nil && len(cp.Entities) == 1, "first feed page")
+	feedTok := cp.NextToken
 	// the dataset is deleted; optionally something else happens before the continuation is used
 	h.Assert(hs.hub.Dsm.DeleteDataset("a") == nil, "delete accepted")
 	g.deleteDS("a")
@@ -320,6 +330,24 @@ func VerifC07PagedAcrossDelete(h *verifh.H) {
 			}
 		}
 		cont = next.Cont
+	}
+	// the stale listing and feed tokens, presented to whatever dataset now carries the name (if
+	// any) and to the surviving dataset, return nothing that was written to the deleted dataset
+	for _, name := range []string{"a", "b"} {
+		d := hs.hub.Dsm.GetDataset(name)
+		if d == nil {
+			continue
+		}
+		if lr, err := d.GetEntities(listTok, -1); err == nil {
+			for _, e := range lr.Entities {
+				h.Assert(e.Properties["ns0:v"] != "a", "a stale listing token returns nothing of the deleted dataset :: presented to "+name+" got="+vRenderEntity(e))
+			}
+		}
+		if cr, err := d.GetChanges(feedTok, 0, false); err == nil {
+			for _, e := range cr.Entities {
+				h.Assert(e.Properties["ns0:v"] != "a", "a stale feed token returns nothing of the deleted dataset :: presented to "+name+" got="+vRenderEntity(e))
+			}
+		}
 	}
 	h.Observe("scope", len(scope))
 }
